@@ -405,6 +405,9 @@ def run(ctx):
     _stale_loop_counters(ctx)
     _no_update_of_index_zero(ctx)
     _no_update_of_a_copy(ctx)
+    # R11.12 = R20.13 seen from the closure side: an index in _global_types that names no type (seed S10-C11, the same edit as S9-C20)
+    from .C20 import merged_entities_keep_the_surviving_index
+    merged_entities_keep_the_surviving_index(ctx, rid="R11.12")
 
 def _registered_hash(ctx):
     """R11.5: names are made unique through the _wrappers_by_hash registry; the
